@@ -52,6 +52,16 @@ fn main() {
                 }
             }
         }
+        "warm" => {
+            for (files, errs) in [(vec!["fa", "fb"], vec![]), (vec!["fa", "fb", "fc"], vec![]), (vec!["fa", "fb"], vec!["fb"]), (vec!["fa", "fb", "fc"], vec!["fb"]), (vec!["fa", "fb", "fc"], vec!["fa", "fc"]), (vec!["fa", "fb"], vec!["fa", "fb"])] {
+                match e3::tlc_graph(&files, &errs) {
+                    Ok(g) => println!("tlc {} files / {} erroneous: {} states", files.len(), errs.len(), g.states),
+                    Err(e) => println!("tlc failed: {e}"),
+                }
+            }
+            props::c19::warm();
+            0
+        }
         "C01" => props::c01::run(rest),
         "C02" => props::c02::run(rest),
         "C03" => props::c03::run(rest),
@@ -70,6 +80,7 @@ fn main() {
         "C16" => props::c16::run(rest),
         "C17" => props::c17::run(rest),
         "C18" => props::c18::run(rest),
+        "C19" => props::c19::run(rest),
         "C20" => props::c20::run(rest),
         other => {
             eprintln!("unknown command {other}");
